@@ -108,11 +108,14 @@ def r6_1(F, R):
             if m not in meths:
                 continue
             k += 1
-            called = [strip_generics(callee_name(t) or "").split("::")[-1] for bi, t in f.calls()]
-            if called == [m]:
+            full = [strip_generics(callee_name(t) or "") for bi, t in f.calls()]
+            called = [x.split("::")[-1] for x in full]
+            sty = f.impl.get("self_ty", "")
+            owner = {"i32": "<impl i32>", "common::Scaled": "common::Scaled::", "common::Glue": "common::Glue::"}.get(sty, sty)
+            if called == [m] and owner in full[0]:
                 R.ok("R6.1", "Number for %s::%s" % (f.impl.get("self_ty"), m), "forwards to %s" % m, "%s:%d" % (f.file, f.line), how="sibling")
             else:
-                R.violation("R6.1", "Number for %s::%s" % (f.impl.get("self_ty"), m), "Number::%s for %s calls %s instead of the like-named operation" % (m, f.impl.get("self_ty"), called), "%s:%d" % (f.file, f.line))
+                R.violation("R6.1", "Number for %s::%s" % (f.impl.get("self_ty"), m), "Number::%s for %s calls %s instead of %s's own like-named operation" % (m, f.impl.get("self_ty"), full, f.impl.get("self_ty")), "%s:%d" % (f.file, f.line))
     R.floor("R6.1", "Number impl methods", k, 15)
     # which Op each primitive getter installs
     want_get = {"get_advance": "AdvanceOp", "get_multiply": "MultiplyOp", "get_divide": "DivideOp"}
@@ -215,6 +218,26 @@ def _resolve_str(fn, defs, op, depth=5):
     return None
 
 
+def r6_1c(F, R):
+    R.rule("R6.1c", "scan_decimal_fraction keeps exactly 17 fractional digits (TeX §452: `if k<17`): odd multiples of 2^-17 have 17 decimal digits and "
+                    "decide the rounding; from_decimal_digits (TeX §102) is fed exactly the digits kept")
+    fn = [f for f in F.fns.values() if strip_generics(f.name) == "texlang::parse::dimen::scan_decimal_fraction"]
+    if len(fn) != 1:
+        raise AnchorError("scan_decimal_fraction: %d matches" % len(fn))
+    fn = fn[0]
+    import re
+    lens = set()
+    for ty, nm in fn.locals:
+        m = re.match(r"^\[u8; (\d+)\]$", ty)
+        if m:
+            lens.add(int(m.group(1)))
+    loc = "%s:%d" % (fn.file, fn.line)
+    if lens == {17}:
+        R.ok("R6.1c", "fraction digits kept", "17", loc, how="constant")
+    else:
+        R.violation("R6.1c", "fraction digits kept", "scan_decimal_fraction keeps %s fractional digits; TeX §452 keeps 17 (the 17th digit decides half-sp ties, e.g. 0.00000762939453125pt = 1sp)" % sorted(lens), loc)
+
+
 NUMERIC = ("common::", "texlang::parse::integer::", "texlang::parse::dimen::", "texlang::parse::glue::", "texlang_stdlib::math::", "texlang_stdlib::the::write")
 
 
@@ -238,6 +261,7 @@ def r6_2(F, R, tier):
 def run(F, R, tier):
     r6_1(F, R)
     r6_1b(F, R)
+    r6_1c(F, R)
     r6_2(F, R, tier)
     return ("Static analysis (partial claim). Decided: the operator table of \\advance/\\multiply/\\divide (wrap / checked+error / checked+error, error => no "
             "store) by finite-domain specialisation; the unit conversion fractions and both keyword tables against TeX §458; every potential-panic site of "
